@@ -15,6 +15,10 @@ Open Scope Z_scope.
 
 (* ---- clean ASTs ----------------------------------------------------------------------------------- *)
 Definition known_val (v : val) : bool := match v with VUnk _ _ => false | _ => true end.
+Definition is_str (v : val) : bool := match v with VStr _ => true | _ => false end.
+(* a template with a single literal part holds a string (TemplateExpr.IsStringLiteral) *)
+Definition one_lit_str (ps : list expr) : bool :=
+  match ps with [ELit v] => is_str v | _ => true end.
 Definition clean_step (s : step) : bool := match s with SIndex v => known_val v | SAttr _ => true end.
 Notation clean_steps := (forallb clean_step).
 
@@ -25,7 +29,7 @@ Fixpoint clean (e : expr) : bool :=
   | ELit v => known_val v
   | EScopeTrav _ st => clean_steps st
   | ERelTrav e' st => clean e' && clean_steps st
-  | ECall _ args _ => go args
+  | ECall _ args x => go args && negb (x && match args with [] => true | _ => false end)
   | ECond c t f => clean c && clean t && clean f
   | EIndex c k0 => clean c && clean k0
   | ETuple es => go es
@@ -38,15 +42,15 @@ Fixpoint clean (e : expr) : bool :=
   | EAnon => true
   | EBin _ l r => clean l && clean r
   | EUn _ e' => clean e'
-  | ETmpl ps => go ps
+  | ETmpl ps => go ps && one_lit_str ps
   | EJoin t => clean t
-  | EWrap e' => match e' with EAnon => false | _ => clean e' end
+  | EWrap e' => clean e'
   | EParen e' => clean e'
   end.
 
 Notation clean_list := (forallb clean).
 Definition clean_opt (o : option expr) : bool := match o with None => true | Some x => clean x end.
-Notation clean_items := (forallb (fun p : expr * expr => clean (fst p) && clean (snd p))).
+Notation clean_items := (forallb (fun p : expr * expr => let (k0, v0) := p in clean k0 && clean v0)).
 
 Lemma clean_go l :
   (fix go (l : list expr) : bool := match l with [] => true | x :: r => clean x && go r end) l = clean_list l.
@@ -54,11 +58,16 @@ Proof. induction l as [|x r IH]; [reflexivity|]. cbn [forallb]. rewrite <- IH. r
 Lemma clean_goi l :
   (fix goi (l : list (expr * expr)) : bool :=
      match l with [] => true | (k1, v1) :: r => clean k1 && clean v1 && goi r end) l = clean_items l.
-Proof. induction l as [|[k1 v1] r IH]; [reflexivity|]. cbn [forallb fst snd]. rewrite <- IH. reflexivity. Qed.
+Proof. induction l as [|[k1 v1] r IH]; [reflexivity|]. cbn [forallb]. rewrite <- IH. reflexivity. Qed.
 
-Lemma clean_ECall n args x : clean (ECall n args x) = clean_list args. Proof. cbn [clean]. apply clean_go. Qed.
+Lemma clean_ECall n args x :
+  clean (ECall n args x) = clean_list args && negb (x && match args with [] => true | _ => false end).
+Proof. cbn [clean]. rewrite clean_go. reflexivity. Qed.
 Lemma clean_ETuple es : clean (ETuple es) = clean_list es. Proof. cbn [clean]. apply clean_go. Qed.
-Lemma clean_ETmpl es : clean (ETmpl es) = clean_list es. Proof. cbn [clean]. apply clean_go. Qed.
+Lemma clean_ETmpl es : clean (ETmpl es) = clean_list es && one_lit_str es.
+Proof. cbn [clean]. rewrite clean_go. reflexivity. Qed.
+Lemma tmpl_lit_known v : is_str v = true -> known_val (tmpl_literal_value v) = true.
+Proof. destruct v; cbn; congruence. Qed.
 Lemma clean_EObj items : clean (EObj items) = clean_items items. Proof. cbn [clean]. apply clean_goi. Qed.
 Lemma clean_EFor a b coll key vl cond g :
   clean (EFor a b coll key vl cond g) = clean coll && clean_opt key && clean vl && clean_opt cond.
@@ -156,8 +165,12 @@ Ltac vprep :=
           assert (P : c = true)
             by (first
                   [ apply clean_make_rel;
-                    [ assumption | cbn [clean_step known_val]; first [reflexivity | assumption] ]
-                  | cbn [clean clean_step clean_opt known_val forallb] in *;
+                    [ assumption
+                    | cbn [clean_step known_val];
+                      first [ reflexivity | assumption
+                            | apply tmpl_lit_known;
+                              cbn [clean clean_step known_val forallb one_lit_str] in *; vclean; assumption ] ]
+                  | cbn [clean clean_step clean_opt known_val forallb one_lit_str fst snd] in *;
                     repeat match goal with E : ?x = true |- context[?x] =>
                              lazymatch x with true => fail | _ => rewrite E end end;
                     reflexivity ]);
@@ -170,10 +183,10 @@ Ltac vgoal := repeat match goal with |- _ /\ _ => split | |- _ -> _ => intro end
 
 Ltac vsolve :=
   vrewrite;
-  cbn [clean clean_step clean_opt known_val forallb fst snd] in *;
+  cbn [clean clean_step clean_opt known_val forallb one_lit_str fst snd] in *;
   vprep;
   repeat match goal with H : ?x = true |- context[?x] => lazymatch x with true => fail | _ => rewrite H end end;
-  cbn [andb];
+  cbv iota; rewrite ?Bool.andb_false_r; cbn [andb negb];
   first [ reflexivity | assumption | congruence
         | (apply clean_make_rel; cbn [clean_step known_val]; first [assumption | reflexivity | congruence])
         | (eexists; split; [reflexivity | first [assumption | congruence | vrewrite; assumption]])
@@ -319,7 +332,10 @@ Definition QSplat (ds : diags) (pre : bool) (r : option (list step) * diags) (rc
 Definition QName (r : (expr * diags) + (list Z * ptok)) (rc rc' : bool) : Prop :=
   match r with inl (_, d) => d <> [] | inr _ => rc' = rc end.
 Definition QTI (r : list expr * bool * diags) (rc rc' : bool) : Prop :=
-  snd r = [] -> rc = false -> rc' = false /\ clean_list (fst (fst r)) = true.
+  snd r = [] -> rc = false ->
+  rc' = false /\ clean_list (fst (fst r)) = true /\
+  (snd (fst r) = false -> one_lit_str (fst (fst r)) = true) /\
+  (snd (fst r) = true -> exists x, fst (fst r) = [x]).
 
 Ltac vunfoldQ ::=
   unfold Qsame, Qon, Qds, Qdsacc, QE, QEacc, QLacc, QIacc, QArgs, QSplat, QName, QTI, clean_pending in *.
@@ -354,6 +370,49 @@ Lemma attr_splat_loop_v self :
   (forall t d, vspec (QSplat d (clean_steps t)) (self t d)) ->
   forall t d, vspec (QSplat d (clean_steps t)) (attr_splat_loop_body self t d).
 Proof. unfold vspec. intros Hs t d. vstart. unfold attr_splat_loop_body. vrun. Qed.
+
+Lemma traversals_loop_v p_expr p_trav splat self :
+  vspec QE p_expr -> (forall e, vspec (QEacc [] (clean e)) (p_trav e)) ->
+  (forall t d, vspec (QSplat d (clean_steps t)) (splat t d)) ->
+  (forall e d, vspec (QEacc d (clean e)) (self e d)) ->
+  forall e d, vspec (QEacc d (clean e)) (traversals_loop_body f p_expr p_trav splat self e d).
+Proof.
+  unfold vspec. intros He Htr Hsp Hs e d. vstart. unfold traversals_loop_body. vrun.
+Qed.
+
+Lemma term_v p_expr p_wt p_call p_tuple p_object p_tmpl :
+  vspec QE p_expr -> vspec QE p_wt -> (forall n, vspec QE (p_call n)) ->
+  vspec QE p_tuple -> vspec QE p_object -> (forall e fl, vspec QTI (p_tmpl e fl)) ->
+  vspec QE (parse_expression_term_body f p_expr p_wt p_call p_tuple p_object p_tmpl).
+Proof.
+  unfold vspec. intros He Hwt Hc Ht Ho Htm. vstart. unfold parse_expression_term_body, template_node. vrun.
+Qed.
+
+Lemma call_name_loop_v self :
+  (forall n o d, vspec QName (self n o d)) ->
+  forall n o d, vspec QName (call_name_loop_body f self n o d).
+Proof. unfold vspec. intros Hs n o d. vstart. unfold call_name_loop_body. vrun. Qed.
+
+Lemma call_args_loop_v p_expr self :
+  vspec QE p_expr -> (forall a d, vspec (QArgs d (clean_list a)) (self a d)) ->
+  forall a d, vspec (QArgs d (clean_list a)) (call_args_loop_body f p_expr self a d).
+Proof. unfold vspec. intros He Hs a d. vstart. unfold call_args_loop_body. vrun. Qed.
+
+Lemma function_call_v name_loop args_loop :
+  (forall n o d, vspec QName (name_loop n o d)) ->
+  (forall a d, vspec (QArgs d (clean_list a)) (args_loop a d)) ->
+  forall name, vspec QE (finish_parsing_function_call_body f name_loop args_loop name).
+Proof. unfold vspec. intros Hn Ha name. vstart. unfold finish_parsing_function_call_body. vrun. Qed.
+
+Lemma tuple_loop_v p_expr self :
+  vspec QE p_expr -> (forall a d, vspec (QLacc d (clean_list a)) (self a d)) ->
+  forall a d, vspec (QLacc d (clean_list a)) (tuple_loop_body f p_expr self a d).
+Proof. unfold vspec. intros He Hs a d. vstart. unfold tuple_loop_body. vrun. Qed.
+
+Lemma tuple_cons_v p_for loop :
+  (forall o, vspec QE (p_for o)) -> (forall a d, vspec (QLacc d (clean_list a)) (loop a d)) ->
+  vspec QE (parse_tuple_cons_body p_for loop).
+Proof. unfold vspec. intros Hf Hl. vstart. unfold parse_tuple_cons_body. vrun. Qed.
 
 End bodies.
 
